@@ -1264,6 +1264,7 @@ func (c *conn) run(pc *protocol.Conn, reqs <-chan connRequest) {
 		} else {
 			cr.res.resolve(r)
 		}
+		verifPoint("transport.beforeRelease")
 		if !c.group.releaseConn(c) {
 			break
 		}
